@@ -666,13 +666,20 @@ func (p *Policy) blockAccountDeferrable(ic *interop.Context, args []stackitem.It
 }
 
 func (p *Policy) BlockAccountInternalDeferrable(ic *interop.Context, hash util.Uint160, handleRes func(res bool)) {
-	i, blocked := p.isBlockedInternal(ic.DAO.GetROCache(p.ID).(*PolicyCache), hash)
+	_, blocked := p.isBlockedInternal(ic.DAO.GetROCache(p.ID).(*PolicyCache), hash)
 	if blocked {
 		handleRes(false)
 		return
 	}
 
 	continuation := func() {
+		// The list can be different by now: revoking the votes calls the
+		// payment callback of the account, which can block accounts itself.
+		i, blocked := p.isBlockedInternal(ic.DAO.GetROCache(p.ID).(*PolicyCache), hash)
+		if blocked {
+			handleRes(false)
+			return
+		}
 		key := makeBlockedAccountKey(hash)
 		if ic.IsHardforkEnabled(config.HFFaun) {
 			ic.DAO.PutBigInt(p.ID, key, new(big.Int).SetUint64(ic.GetTime()))
